@@ -168,6 +168,13 @@ def judge(case):
     col_ids = [rid for rid, _ in coloured]
     counts, cards = run["counts"], run["cards"]
     N = len(coloured)
+    # If the command's wording or the report template changed, the observation points cannot be read: that is a
+    # harness problem (exit 2), never a verdict on the code.
+    if not counts["recognised"] or (N > 0 and not counts["summary_seen"]):
+        raise HarnessError(f"cm-colors stdout format not recognised: {run['stdout']!r}")
+    rep = run["texts"].get(cli.REPORT)
+    if rep is not None and not cards and b"card" not in rep:
+        raise HarnessError("report template not recognised (no cards found)")
     shared = shared_vars(nf_in)
 
     def tag(rule):
